@@ -11,6 +11,42 @@ import (
 	"time"
 )
 
+// rejKind: the driver's own reading of WHY a string is not Bech32 (which stage of the specification's decoder rejects
+// it).  Not judged by anything: the checks use it to pick one rejected input per kind for the failure histories.
+func rejKind(s string) string {
+	if len(s) > 90 {
+		return "len"
+	}
+	sep := strings.LastIndexByte(s, '1')
+	if sep < 0 {
+		return "nosep"
+	}
+	if sep < 1 || sep+7 > len(s) {
+		return "seppos"
+	}
+	lower, upper := false, false
+	for i := 0; i < len(s); i++ {
+		c := s[i]
+		if i < sep && (c < 33 || c > 126) {
+			return "hrpchar"
+		}
+		if i > sep && c >= 0x80 {
+			return "nonascii"
+		}
+		lower = lower || (c >= 'a' && c <= 'z')
+		upper = upper || (c >= 'A' && c <= 'Z')
+	}
+	if lower && upper {
+		return "case"
+	}
+	for i := sep + 1; i < len(s); i++ {
+		if strings.IndexByte(csAlphabet, s[i]|32) < 0 || (s[i] < 'A' && (s[i] < '0' || s[i] > '9')) {
+			return "charset"
+		}
+	}
+	return "checksum"
+}
+
 func vRun(op string, in M) M {
 	switch op {
 	case "bech32.Decode":
@@ -24,6 +60,9 @@ func vRun(op string, in M) M {
 		var se *SyntaxError
 		if err != nil && errors.As(err, &se) {
 			out["off"] = se.Offset
+		}
+		if err != nil {
+			out["err"] = rejKind(s)
 		}
 		if err == nil && p == "" {
 			var r string
